@@ -18,6 +18,19 @@ def float_ok(x):
     return isinstance(x, int) or x ** 2 == x * x
 
 
+def embed_pair(L, R, Ls):
+    """Differ accepts any lxml Elements: hand the trees over as sub-elements of larger documents (same namespace
+    declarations in scope); text after the element in its document: the same on both sides (so no action may mention
+    it), for half of the embedded cases"""
+    for t in (L, R):
+        outer = etree.Element("outer", nsmap=t.nsmap)
+        etree.SubElement(outer, "sibling").tail = "x"
+        outer.append(t)
+        t.tail = "after" if len(Ls) % 2 else None
+        etree.SubElement(outer, "sibling")
+    return L, R
+
+
 def build_case(Ls, Rs, opts):
     """Ls, Rs: XML strings.  Returns dict(term, desc, matches, raw (actions or exception name), run) or None if
     the case is outside the modelled fragment (float pow anomaly)."""
@@ -25,16 +38,7 @@ def build_case(Ls, Rs, opts):
     desc = {"left": Ls, "right": Rs, "opts": {k: (v if not isinstance(v, tuple) else list(v)) for k, v in opts.items()}}
     opts = dict(opts)
     if opts.pop("_embed", False):
-        # Differ accepts any lxml Elements: hand the trees over as sub-elements of larger documents
-        # (same namespace declarations in scope)
-        for which, t in (("L", L), ("R", R)):
-            outer = etree.Element("outer", nsmap=t.nsmap)
-            etree.SubElement(outer, "sibling").tail = "x"
-            outer.append(t)
-            # text after the element in its document: the same on both sides (so no action may mention it), for half
-            # of the embedded cases
-            t.tail = "after" if len(Ls) % 2 else None
-            etree.SubElement(outer, "sibling")
+        embed_pair(L, R, Ls)
     if not (treeenc.supported(L) and treeenc.supported(R)):
         return None
     run = DiffRun(L, R, opts)
